@@ -27,6 +27,9 @@
 //  4. the allocator as wired into the node (node.go): the real common.InitConfig(), a real UnspentDB, run-time config
 //     changes through common.Reset(), defrag_utxo ticks; one child process per case; compared with Model/AllocNode.lean.
 //
+//  5. out-of-memory faults (fault.go): one child process per case; RLIMIT_AS makes the mmap of a fresh page fail in the
+//     middle of a defragmentation pass; the process may stop there, or must keep the whole predicate afterwards.
+//
 // In all streams the property's own predicate is evaluated on the real code independently of the model.
 package main
 
@@ -212,11 +215,19 @@ type diff struct {
 	nlive     int
 }
 
+// propSink: set in a child process that has no vlib.Run of its own (fault.go); the failure is passed to the
+// parent instead of being reported here.
+var propSink func(key, what string)
+
 func (d *diff) prop(key, what string) {
 	if d.failed {
 		return
 	}
 	d.failed = true
+	if propSink != nil {
+		propSink(key, fmt.Sprintf("%s: %s", d.tr.Name, what))
+		return
+	}
 	if d.rp != nil {
 		r.PropFail(key, fmt.Sprintf("%q: %s", d.tr.Name, what), d.rp)
 		return
@@ -1624,6 +1635,17 @@ func replayFile(path string, bs []int) {
 		replayStorm(sc.Storm)
 		return
 	}
+	var fc struct {
+		Fault faultCase `json:"fault"`
+	}
+	if json.Unmarshal(doc.Replay, &fc) == nil && fc.Fault.Pages > 0 {
+		if fc.Fault.Class < 0 || fc.Fault.Class >= len(slots) {
+			fmt.Println("bad replay file: class out of range")
+			os.Exit(3)
+		}
+		runFaultCase(fc.Fault)
+		return
+	}
 	var nc struct {
 		Node nodeCase `json:"node"`
 	}
@@ -1786,6 +1808,10 @@ func supervise() {
 func main() {
 	if os.Getenv("C20_NODE_CHILD") != "" {
 		nodeChild() // node.go: one node life (InitConfig once per process)
+		return
+	}
+	if os.Getenv("C20_FAULT_CHILD") != "" {
+		faultChild() // fault.go: one history with an injected allocation failure (the process may legitimately stop)
 		return
 	}
 	r = vlib.NewRun("C20")
@@ -1956,6 +1982,11 @@ func main() {
 		runStormStream(vlib.NewRng(r.Seed*0x9E3779B97F4A7C15+0x5708), r.N(8, 24), r.N(2500, 6000)) // own PRNG stream
 	}
 
+	// 5b-4. out-of-memory faults: the OS refuses a fresh page in the middle of a defragmentation pass (fault.go)
+	if only == "" || only == "fault" {
+		runFaultStream(vlib.NewRng(r.Seed*0x9E3779B97F4A7C15+0xFA17), r.N(6, 24)) // own PRNG stream
+	}
+
 	// 5c. the allocator as wired into the node: InitConfig, UTXO commits, run-time config changes, defrag_utxo (node.go)
 	if only == "" || only == "node" {
 		runNodeStream(g, r.N(4, 16), bs)
@@ -1970,6 +2001,7 @@ func main() {
 	r.Extra["boundary_sizes_in_corpus"] = len(bs)
 	r.Assume = []string{
 		"mmap returns zero-filled memory aligned to 1 MiB that overlaps no other mapping (OS contract)",
+		"when the OS refuses memory: inside a defragmentation pass the code panics and the process stops (fail-stop; the model's pass has no abort path — regenerated source fact Gen.MemClasses.defragNoEarlyExit, Props.C20.defrag_pass_has_no_abort_path; the fault stream makes mmap fail inside real passes and requires 'stopped at the fault' or 'survived with the whole predicate intact'); outside a pass Malloc returns nil with Allocs already incremented (seen on the unchanged code: Allocs = live + 1 from then on; the node's callers dereference the nil result at once and stop) — Malloc's failure path is not modelled and not driven",
 		"os.Getpagesize() = 4096 and a 64-bit target (slice header 24 bytes, page_header 32 bytes: recomputed from the struct declaration on every run)",
 		"callers free only pointers returned by Malloc and not yet freed, do not write outside [0,Len) and do not modify the slice header",
 		"DefragAllImproved runs while no Malloc/Free is in progress (as its comment requires)",
@@ -1978,6 +2010,6 @@ func main() {
 		"node wiring: which functions write common.Memory / utxo.Memory_Malloc / utxo.Memory_Free and from where they are reachable is a regenerated source fact (gen_c20/wire.go, syntactic mention graph over client/, lib/utxo/ and every module package in their transitive import closure — lib/chain, lib/btc, lib/script, lib/others/…; function literals count as part of the function they are written in, `x.Name` as a mention of every method called Name; NOT seen: writes through reflection, go:linkname, unsafe pointers or an alias `p := &utxo.Memory_Free` taken in one function and written through in another — taking the address itself counts as a write); the node stream commits blocks through UnspentDB.CommitBlockTxs, not through lib/chain.AcceptBlock; the TextUI / WebUI config handlers are mirrored by the harness (copy CFG + fragment + Reset, save + load + Reset, whole JSON + Reset), not called",
 		"sort.Slice is not stable: the model takes the evacuation order observed on the real allocator and checks it against the selection rule (sorted by used, stop when recordsToFree >= target); theorems hold for every legal order",
 	}
-	r.Finish("corpus: every size-class boundary (slot-1, slot, slot+1 for all classes of the generated table), the private-mapping boundaries and 200 KiB; page-edge traces; random mixed traces; single-class traces; defragmentation scenarios at 5 fragmentation patterns (uniform, whole pages emptied, equal use on every page, at the 12-page threshold, everything freed) each followed by an aftermath and a second pass; 2..16-goroutine phases with barrier checks and defrag; steady-state churn cases (2..4 goroutines sharing 1..3 size classes in free-list mode, the classes walking a permutation of all dense small classes); mode-edge contention cases (2..16 goroutines released together in one class that was put k slots before the end of its bump region / of its free list / dry, 10..17 rounds each); header-counter storms (8..16 goroutines, thousands of Mallocs each with a third freed again, in one dense class so that all of them update one page header); node lives (InitConfig in allocator or Go-heap mode, raw Malloc/Free, UTXO blocks with partial and full spends, large-class waves, config changes of 27 settings in three forms with Memory.UseGoHeap flipped at least once, defrag_utxo ticks). distinct = distinct traces (name, length, middle op); every trace reaches Malloc and Free on the real allocator",
+	r.Finish("corpus: every size-class boundary (slot-1, slot, slot+1 for all classes of the generated table), the private-mapping boundaries and 200 KiB; page-edge traces; random mixed traces; single-class traces; defragmentation scenarios at 5 fragmentation patterns (uniform, whole pages emptied, equal use on every page, at the 12-page threshold, everything freed) each followed by an aftermath and a second pass; 2..16-goroutine phases with barrier checks and defrag; steady-state churn cases (2..4 goroutines sharing 1..3 size classes in free-list mode, the classes walking a permutation of all dense small classes); mode-edge contention cases (2..16 goroutines released together in one class that was put k slots before the end of its bump region / of its free list / dry, 10..17 rounds each); header-counter storms (8..16 goroutines, thousands of Mallocs each with a third freed again, in one dense class so that all of them update one page header); node lives (InitConfig in allocator or Go-heap mode, raw Malloc/Free, UTXO blocks with partial and full spends, large-class waves, config changes of 27 settings in three forms with Memory.UseGoHeap flipped at least once, defrag_utxo ticks); out-of-memory cases (fault.go: one child process each; a fragmented class of 26..44 pages in three shapes, a DefragAllImproved pass during which RLIMIT_AS follows the process size from before the pass or from the k-th relocation on, so that the next fresh page is refused; accepted: the process stops at the fault, or it survives and every predicate holds through traffic, a second pass and the final frees). distinct = distinct traces (name, length, middle op); every trace reaches Malloc and Free on the real allocator",
 		"single-threaded traces are compared step by step with the Lean model (address, Len/Cap, counters, complete per-class state incl. free-list order, every link field of the pointer layer, relocate sequence); independently of the model the property predicate is evaluated on the real allocator: fill pattern on free/relocate/end, overlap registry over all live slot ranges, Len/Cap/Data, Allocs = live, slot-by-slot 'live xor on free list', relocate exactly once")
 }
